@@ -137,11 +137,11 @@ fn assoc_find(
     alist: &TulispObject,
     mut testfn: impl FnMut(&TulispObject, &TulispObject) -> Result<bool, Error>,
 ) -> Result<TulispObject, Error> {
-    if alist.caar_and_then(|caar| testfn(&caar, key))? {
-        return alist.car();
-    }
-    if alist.consp() {
-        return alist.cdr_and_then(|cdr| assoc_find(key, cdr, testfn));
+    // Elements that are not cons cells are ignored.
+    for item in alist.base_iter() {
+        if item.consp() && item.car_and_then(|car| testfn(car, key))? {
+            return Ok(item);
+        }
     }
     Ok(TulispObject::nil())
 }
@@ -152,11 +152,12 @@ fn assoc_find(
 /// Read more about `plist`s
 /// [here](https://www.gnu.org/software/emacs/manual/html_node/elisp/Property-Lists.html).
 pub fn plist_get(plist: &TulispObject, property: &TulispObject) -> Result<TulispObject, Error> {
-    if plist.car_and_then(|car| Ok(car.eq(property)))? {
-        return plist.cadr();
-    };
-    if plist.consp() {
-        return plist.cddr_and_then(|cddr| plist_get(cddr, property));
+    let mut next = plist.clone();
+    while next.consp() {
+        if next.car_and_then(|car| Ok(car.eq(property)))? {
+            return next.cadr();
+        }
+        next = next.cddr()?;
     }
     Ok(TulispObject::nil())
 }
